@@ -17,7 +17,8 @@ RULE = (
     "semantic programs x {detect text, detect --json -, print cfg, subroutine-cfg, call-graph, human-summary, "
     "transaction-context}, run through tealer.__main__.main in-process. Oracle: no exception other than "
     "SystemExit(0), no 'Error:' line, JSON parses with error == null, expected output files exist and are "
-    "non-empty. Non-trivial = program uses >= 1 adversarial layout feature or >= 1 subroutine; distinct by source."
+    "non-empty. analysis: many more G2 programs (modelled, direct with cross-block connective operands, group-heavy) through "
+    "init_tealer_from_single_contract + all nine detectors in-process: no internal error. Non-trivial = program uses >= 1 adversarial layout feature or >= 1 subroutine; distinct by source."
 )
 ASSUMPTIONS = ["generated programs are assembler-valid and enter subroutine bodies only through callsub (by construction)"]
 
@@ -81,6 +82,22 @@ def check(case):
             "counters": {"cli_runs": len(MODES)}}
 
 
+def check_analysis(case):
+    """the analysis itself (parse, function construction with the transaction-context analyses, every
+    detector) through the library entry point the command line uses; no output mode involved, so many more
+    programs can be tried than through the seven CLI modes"""
+    from vf import adapter
+
+    g = RCFG(case)
+    try:
+        tl = adapter.init_single(g.text)
+        adapter.run_detectors(tl, list(adapter.DETECTOR_NAMES))
+    except adapter.TealerCrash as e:
+        raise Violation("internal-error", f"analysis: {e}\n{g.text}", {"mode": "analysis"})
+    feats = g.features()
+    return {"nontrivial": bool(NT & set(feats)) or bool(case.get("features")), "key": case_hash(g.text), "features": feats + list(case.get("features", [])), "evaluations": 1}
+
+
 def components(tier, disabled):
     q = tier == "quick"
     comps = {
@@ -92,6 +109,12 @@ def components(tier, disabled):
 
         comps["semantic"] = {"strategy": semantic_program(profile="modelled", disabled=disabled), "check": check,
                              "examples": 500 if q else 20000, "min_per_shard": 10, "sample": lambda c, i: RCFG(c).text}
+        from hypothesis import strategies as st
+
+        comps["analysis"] = {"strategy": st.one_of(semantic_program(profile="modelled", disabled=disabled),
+                                                   semantic_program(profile="direct", disabled=disabled, xflag=True),
+                                                   semantic_program(profile="modelled+group", disabled=disabled)),
+                             "check": check_analysis, "examples": 4000 if q else 200000, "sample": lambda c, i: RCFG(c).text}
     except ImportError:
         pass
     return comps
